@@ -28,6 +28,7 @@ type Run struct {
 	Steps    int
 	Reach    []string // vReach ids that must be hit (besides every assert)
 	Note     string
+	NoNative bool // sampled paths are not re-run natively (schedule choices / virtual time are not reproducible on the real runtime)
 }
 
 type Property struct {
@@ -233,7 +234,7 @@ func CmdCheck(args []string) int {
 			label += "@" + arch
 		}
 		ev.addRun(label, params, st, p.Units)
-		if arch == "amd64" && len(st.Violations) == 0 && (batchPkg == "" || batchPkg == r.Pkg) {
+		if arch == "amd64" && !r.NoNative && len(st.Violations) == 0 && (batchPkg == "" || batchPkg == r.Pkg) {
 			batchPkg = r.Pkg
 			for _, sm := range st.Samples {
 				batch = append(batch, replayCase{Harness: r.Func, Inputs: sm, Params: params})
@@ -286,6 +287,13 @@ func CmdCheck(args []string) int {
 				continue
 			}
 			res, out := nativeReplay(path, r.Pkg)
+			if r.NoNative && res != "confirmed" {
+				// schedule-dependent harness: the real runtime cannot be forced
+				// onto the symbolic schedule, so the solver's path is reported
+				// as it is (the replay file records inputs and decision prefix).
+				fmt.Printf("  counterexample for %s/%s found on a symbolic schedule (native run under the real scheduler: %s): %s\n", label, v.Assert, res, summarizeInputs(v.Inputs))
+				res = "confirmed"
+			}
 			handleReplay(&rc, &violationLines, &problems, ev, id, path, label, v, res, out)
 		}
 	}
